@@ -311,24 +311,7 @@ def _stmt_state(st):
     return canon.digest(canon.snapshot({k: v for k, v in vars(st).items() if k != 'engine'}))
 
 
-def bare_context():
-    """A hand-assembled standard-library context WITHOUT the #finalize / #iter functions that
-    yaql.create_context() adds (hosts may build contexts this way; Statement then falls back to an identity
-    finaliser in a private child)."""
-    from yaql.language import contexts as ycontexts, conventions
-    from yaql.standard_library import (boolean, branching, collections as scoll, common, date_time, math,
-                                       queries, regex, strings, system, yaqlized)
-    ctx = ycontexts.Context(convention=conventions.CamelCaseConvention())
-    system.register_fallbacks(ctx)
-    ctx = ctx.create_child_context()
-    system.register(ctx, False)
-    for m in (common, boolean, strings, math):
-        m.register(ctx)
-    scoll.register(ctx, False)
-    queries.register(ctx, True)
-    for m in (regex, branching, date_time):
-        m.register(ctx)
-    return yaqlized.register(ctx)
+bare_context = yq.bare_context
 
 
 CONTEXT_KINDS = ('std-fresh-child', 'std-reused-child', 'bare-fresh-child', 'bare-itself')
